@@ -1,5 +1,5 @@
 package c18
-import ("testing";"os";"fmt";"strings";"sort";"encoding/json";"regexp";"pgregory.net/rapid";"verif/internal/dxbc")
+import ("testing";"os";"fmt";"strings";"sort";"encoding/json";"regexp";"pgregory.net/rapid";"verif/internal/dxbc";"github.com/gogpu/naga")
 func TestProbe(t *testing.T){
  src,_:=os.ReadFile(os.Getenv("PROBE"))
  for i,prog:=range strings.Split(string(src),"//====") {
@@ -70,3 +70,9 @@ func TestDiffProbe(t *testing.T){
 }
 
 var reFn = regexp.MustCompile(`function \S+:`)
+
+func TestWhyRejected(t *testing.T){
+ b,_:=os.ReadFile(os.Getenv("PROBE")); var c testCase; json.Unmarshal(b,&c)
+ _,err:=naga.Parse(c.WGSL); fmt.Println("parse:",err)
+ if err==nil { ast,_:=naga.Parse(c.WGSL); _,err=naga.LowerWithSource(ast,c.WGSL); fmt.Println("lower:",err) }
+}
